@@ -56,6 +56,11 @@ impl OligoCgrComputer {
         self.threads = threads;
     }
 
+    #[cfg(kmertools_verif)]
+    pub fn set_max_memory(&mut self, memory: usize) {
+        self.memory = memory;
+    }
+
     pub fn set_norm(&mut self, norm: bool) {
         self.norm = norm;
     }
